@@ -1349,10 +1349,13 @@ class Signature:
                     ctx.visitor.show_caught_errors(caught_errors)
                     had_error = True
             elif self.evaluator is not None:
-                varmap = {
-                    param: composite.value
-                    for param, (_, composite) in bound_args.items()
-                }
+                varmap = {}
+                for param, (position, composite) in bound_args.items():
+                    value = composite.value
+                    if position is DEFAULT and value == AnyValue(AnySource.unannotated):
+                        # The default is "...", which stands for the declared type
+                        value = self.parameters[param].get_annotation()
+                    varmap[param] = value
                 positions = {
                     param: position for param, (position, _) in bound_args.items()
                 }
